@@ -1,14 +1,47 @@
 """C06 — Unit conversions agree with the SI definitions of the units and invert.
 
 Model: lean/Ladybug/Model/Units.lean (dispatch, range limits, to_ip/to_si, collection conversion),
+       lean/Ladybug/Model/UnitsHist.lean (round 3: object state machines for HISTORIES on heaps of collections:
+       value-level specification `Hist.step` and reference-level machine `Hist.rstep` with Header cells),
        lean/Ladybug/Gen/Units.lean (REGENERATED on every run: all `_<u>_to_<v>` formulas as exact Rat
        functions, per-type tables), lean/Ladybug/Model/SI.lean (hand-written SI definitions);
-theorems: lean/Ladybug/Props/C06.lean + the regenerated obligations lean/Ladybug/Gen/UnitsProofs*.lean;
+theorems: lean/Ladybug/Props/C06.lean (+ lemmas Proofs/C06Lemmas.lean, Proofs/C06Hist.lean) + the regenerated
+       obligations lean/Ladybug/Gen/UnitsProofs*.lean;
 driver: drv_c06.  Tie: translator (tools/extract/units.py) + correspondence on the ops below.
+
+Producers and their consumers (every consumer is exercised by the correspondence and/or the oracle; a change made
+consistently in a producer and ONE consumer shows in the others):
+  * `_<u>_to_<v>` formula methods (datatype/<type>.py)
+      -> DataType.to_unit (every ordered pair), to_ip / to_si, is_in_range (limits in another unit),
+         collection convert_to_unit/ip/si, to_unit/ip/si (mutable and immutable), is_in_data_type_range,
+         to_time_aggregated / to_time_rate_of_change (first go to units[0]).
+  * `units` / `si_units` / `ip_units` tables
+      -> is_unit_acceptable (both raise modes), Header.__init__, Header.from_dict, <Collection>.from_dict,
+         to_unit rejection, to_ip/to_si targets, normalize/aggregate label acceptance.
+  * `min` / `max`  -> is_in_range (with / without unit, both raise modes), collection.is_in_data_type_range.
+  * `_normalized_type`, `_time_aggregated_type`, `_time_aggregated_factor`, the `timestep` argument convention of
+    `_time_aggregated_collection` -> normalize_by_area, aggregate_by_area, to_time_aggregated and
+    to_time_rate_of_change of HourlyDiscontinuous / HourlyContinuous (all 12 timesteps) and Daily (1/24), each class
+    mutable and immutable.
+  * the Header object of a collection (`_unit`, `_data_type`; written in place by convert_*)
+      -> header.unit, header.data_type, header.to_dict / to_tuple / iteration / to_csv_strings, collection.to_dict,
+         values via .values / iteration / indexing / to_dict / bounds / min / max / total / average; the Headers of
+         every OTHER collection derived earlier (duplicate, to_immutable, to_mutable, to_unit/ip/si, normalise, ...).
+History layer (round 3): (1) `hist`: generated operation histories on a heap of collections (in-place conversions,
+copies, immutable/mutable twins, item / values assignment, area and time derivations, range reads, refused
+operations of every kind) compared after EVERY step, for EVERY object of the heap, with the reference-level Lean
+machine (correspondence) and with the SI-meaning oracle (`_check_hist`); (2) `thist`: call histories on SHARED
+data-type objects (siblings of one base type asked the same question, several unit pairs on one object, repeated
+questions, refused calls first) against the stateless model and the SI oracle; (3) `order`: slices of the oracle
+stream run in 3-4 FRESH Python processes in different orders (rare classes first / last / shuffled); a failure is
+shrunk to a short call sequence `{"order": [...]}` that `replay` re-runs in a fresh process.
 """
 import json
 import math
+import os
 import struct
+import subprocess
+import sys
 from fractions import Fraction as Fr
 
 from harness import core
@@ -18,8 +51,8 @@ PROP = 'C06'
 N_GEN_PROOFS = 4
 PROOF_MODULES = ['Ladybug.Props.C06'] + ['Ladybug.Gen.UnitsProofs%d' % k for k in range(1, N_GEN_PROOFS + 1)] \
     + ['Ladybug.Gen.UnitsSym']
-GREP_MODULES = ['Ladybug.Py', 'Ladybug.DrvCore', 'Ladybug.Model.Units', 'Ladybug.Model.SI', 'Ladybug.Gen.Units',
-                'Ladybug.Proofs.C06Lemmas', 'Ladybug.Drv.C06']
+GREP_MODULES = ['Ladybug.Py', 'Ladybug.DrvCore', 'Ladybug.Model.Units', 'Ladybug.Model.UnitsHist', 'Ladybug.Model.SI',
+                'Ladybug.Gen.Units', 'Ladybug.Proofs.C06Lemmas', 'Ladybug.Proofs.C06Hist', 'Ladybug.Drv.C06']
 EXTRACTORS = 'tools/extract/units.py'
 RULE = ('correspondence: every ordered unit pair of every base type x magnitudes 0, +-1, +-10^k (k=-12..12) and '
         'random values (model = regenerated exact Rat formulas run by the Lean driver, implementation = '
@@ -30,8 +63,15 @@ RULE = ('correspondence: every ordered unit pair of every base type x magnitudes
         'with non-numbers (_is_numeric), GenericType; oracle: independent SI table (exact fractions) x every ordered '
         'pair x magnitudes: 0.2 % agreement, 2e-5 round trip, identity, IP/SI targets, rejection, collections keep '
         'values/unit/type in step, normalise x area = original quantity and aggregate undoes it, rate x seconds = '
-        'aggregated quantity and rate of change undoes it (SI).  A case is non-trivial when the implementation returns a value (not a '
-        'rejection); distinct = distinct (op, input)')
+        'aggregated quantity and rate of change undoes it (SI).  Round 3: operation HISTORIES on heaps of collections of '
+        'all 10 classes (3-10 ops out of cu/ci/cs/tu/ti/ts/dup/imm/mut/set/vals/norm/agg/tagg/trate/rng, targets biased '
+        'to the first and the newest object, ~15 % refused operations: unlisted units, in-place ops on immutables, '
+        'wrong-length values, index out of range, zero area, underivable types; single-value and 24-value collections, '
+        'all 12 timesteps, leap and non-leap periods), generated in lock-step with the model so that every target '
+        'exists; the WHOLE heap is compared after every step (reads in random order, twice); call histories on shared '
+        'data-type objects with probes on both sides of every converted limit; slices of the oracle stream in 3-4 fresh '
+        'processes in rare-first / common-first / shuffled order.  A case is non-trivial when the implementation '
+        'returns a value (not a rejection); distinct = distinct (op, input)')
 TRUSTED_BASE = [
     'translator tools/extract/units.py: the emitted Lean expression denotes the Python `return` expression over '
     'exact rationals (decimal literals by source text); the dispatch table (which method a unit reaches) and the '
@@ -48,6 +88,11 @@ TRUSTED_BASE = [
     'regenerated tables (the kernel does not evaluate String.replace), values and factors are theorems',
     'GenericType and the `_is_numeric` assertion are small hand models (to_unit not implemented / first value only) '
     'tied by the correspondence ops `generic` and `raw`',
+    'history machines (Model/UnitsHist.lean): the reference-level machine models WHICH Header object each collection '
+    'method reads, writes and allocates (written by hand from _datacollectionbase.py / datacollection.py / '
+    'datacollectionimmutable.py); tied by the correspondence op `hist`, which compares the whole heap after every '
+    'step.  The data-type layer has no state in the model; that the real objects have none is checked on call '
+    'histories and in fresh processes, not proved (Python classes can grow state anywhere)',
 ]
 ASSUMPTIONS = ['SI / legal definitions of the units as listed at the top of Model/SI.lean',
                'thermochemical calorie, International-Table Btu, US gallon/fluid ounce, mechanical horsepower, '
@@ -63,7 +108,12 @@ LEVEL_TEXT = ('Machine-checked Lean 4 theorems over exact rationals: every one o
               'to_ip/to_si (listed, idempotent, identity when listed), to is_in_range (limits converted with the same '
               'formulas, order preserved), to normalize/aggregate by area and time aggregation (exact inverses; generated '
               'theorems: normalised units are SI quotients, aggregation factors are 3600 s in SI terms), GenericType and '
-              'the _is_numeric guard. Angle is proved symbolically in pi over any field of characteristic 0.')
+              'the _is_numeric guard. Angle is proved symbolically in pi over any field of characteristic 0. '
+              'Histories: for every list of operations on a heap of collections the reference-level machine (objects '
+              'referring to Header cells, constructors allocating fresh ones) is observably the value-level '
+              'specification (history refines fresh objects built from the final public state), a refused operation '
+              'changes nothing, reads are pure and commute, an operation on one object never changes another (immutable '
+              'twins), and in-place conversions inside a history keep the certified physical meaning.')
 LEVEL_NOTE = ('Trusted: Lean kernel; axioms propext/Classical.choice/Quot.sound only; the formula translator and the '
               'hand-written SI table; float vs exact arithmetic compared (1e-12), not proved; correspondence on '
               'generated inputs only for the dispatch/collection layer.')
@@ -139,7 +189,7 @@ def _same(model_items, impl_items, slack):
     return True
 
 
-def compare_num(ctx, op, cases, model_line, impl_fn, slack_fn=None, key=None):
+def compare_num(ctx, op, cases, model_line, impl_fn, slack_fn=None, key=None, fix=None, inp_fn=None):
     """Like core.compare_batch, but numbers are compared numerically (1e-12 relative) after decoding."""
     lines = [model_line(c) for c in cases]
     outs = ctx.driver().run(lines)
@@ -157,8 +207,11 @@ def compare_num(ctx, op, cases, model_line, impl_fn, slack_fn=None, key=None):
             ctx.count('result:%s:%s' % (op, io[0]))
         else:
             ctx.count('result:%s:ok' % op)
-        if not _same(_parse_model(mo), io, slack_fn(c) if slack_fn else 0.0):
-            ctx.disagree(op, {'case': c, 'line': line}, mo, ' '.join(
+        mi = _parse_model(mo)
+        if fix is not None:
+            io = fix(mi, io)
+        if not _same(mi, io, slack_fn(c) if slack_fn else 0.0):
+            ctx.disagree(op, inp_fn(c, line) if inp_fn else {'case': c, 'line': line}, mo, ' '.join(
                 (repr(x) if isinstance(x, float) else str(x)) for x in io))
     if cases:
         ctx.sample({'op': op, 'request': lines[0][:300], 'model': outs[0][:300]})
@@ -227,9 +280,44 @@ def _bound_str(x):
     return str(fr.numerator) if fr.denominator == 1 else '%d/%d' % (fr.numerator, fr.denominator)
 
 
+_POOL = None     # when a dict: data-type instances are SHARED between the calls of one history
+
+
 def _inst(name):
     import ladybug.datatype as dtm
+    if _POOL is not None:
+        if name not in _POOL:
+            _POOL[name] = dtm.TYPESDICT[name]()
+        return _POOL[name]
     return dtm.TYPESDICT[name]()
+
+
+def _model_limits(ctx, tabs, names):
+    """{(type, unit): [finite limits expressed in `unit`]} computed by the MODEL (driver `to_unit`), so that range
+    probes can be placed on both sides of every converted limit without asking the code under test."""
+    reqs, keys = [], []
+    for n in names:
+        t = tabs[n]
+        for b in (t['min'], t['max']):
+            if b in ('-inf', 'inf', 'nan'):
+                continue
+            for u in t['units']:
+                keys.append((n, u))
+                reqs.append('to_unit %s %s %s 1 %s' % (n, _utok(u), _utok(t['units'][0]), _fbits(float(Fr(b)))))
+    out = {}
+    for k, o in zip(keys, ctx.driver().run(reqs)):
+        tk = o.split()
+        if tk[0] == 'ok' and len(tk) == 2:
+            out.setdefault(k, []).append(float(Fr(tk[1])))
+    return out
+
+
+def _limit_probes(lims):
+    ps = []
+    for l in lims:
+        d = max(abs(l), 1.0) * 0.25
+        ps += [[l + d], [l - d], [l + 3 * d, l - 3 * d]]
+    return ps
 
 
 def _has_offset(tabs, name):
@@ -344,6 +432,7 @@ def correspondence(ctx):
                 key=lambda c: (c[0], c[1], c[2]))
 
     # --- is_in_range of every type x unit around the limits
+    mlims = _model_limits(ctx, tabs, names)
     cases = []
     for n in names:
         us = tabs[n]['units']
@@ -355,9 +444,9 @@ def correspondence(ctx):
         for u in us + [None, rng.choice(UNKNOWN_UNITS)]:
             probes = [[], [0.0], [1.0, -1.0], [1e30], [-1e30], [rng.uniform(-500, 500) for _ in range(3)]]
             for lim in lims:
-                # the limit expressed in `u` is computed by the code itself; probe at a distance
-                # that float rounding cannot bridge: scale the limit in the base unit first
                 probes += [[lim], [lim * 2 + 1], [lim * 2 - 1], [lim / 2]]
+            # both sides of every limit as the MODEL converts it to `u`
+            probes += _limit_probes(mlims.get((n, u), []))
             for p in probes:
                 cases.append((n, u, p))
                 ctx.count('in_range_cases')
@@ -471,6 +560,8 @@ def correspondence(ctx):
 
     _area_time_correspondence(ctx, tabs, names, base_names)
     _raw_generic_correspondence(ctx, tabs, names, base_names)
+    _hist_correspondence(ctx, tabs, names, base_names)
+    _thist_correspondence(ctx, tabs, names, base_names)
 
 
 def _area_time_correspondence(ctx, tabs, names, base_names):
@@ -633,10 +724,357 @@ def _raw_generic_correspondence(ctx, tabs, names, base_names):
     compare_num(ctx, 'generic', cases, line_g, impl_g, key=lambda c: json.dumps(c))
 
 
+# ---------------------------------------------------------------------------------------------
+# ROUND 3 -- histories (correspondence side): heaps of collections vs the reference-level Lean machine,
+# call histories on shared data-type instances vs the (stateless) model
+
+ALL_TIMESTEPS = [1, 2, 3, 4, 5, 6, 10, 12, 15, 20, 30, 60]
+HIST_MAX_OBJS = 7
+
+
+def _hist_step_arg(spec):
+    return float(spec['timestep']) if spec['cls'].startswith('Hourly') else 1. / 24.
+
+
+def _hist_tok(o, spec):
+    k = o[0]
+    if k in ('cu', 'tu'):
+        return '%s %d %s' % (k, o[1], _utok(o[2]))
+    if k in ('ci', 'cs', 'ti', 'ts', 'dup', 'imm', 'mut', 'rng'):
+        return '%s %d' % (k, o[1])
+    if k == 'set':
+        return 'set %d %d %s' % (o[1], o[2], _fbits(o[3]))
+    if k == 'vals':
+        return 'vals %d %s' % (o[1], _vals(o[2]))
+    if k in ('norm', 'agg'):
+        return '%s %d %s %s' % (k, o[1], _fbits(o[2]), _utok(o[3]))
+    if k in ('tagg', 'trate'):
+        return '%s %d %s' % (k, o[1], _fbits(_hist_step_arg(spec)))
+    raise ValueError('unknown history op %r' % (k,))
+
+
+def _hist_line(spec, ops):
+    return 'hist %s %s %s %s %s' % ('1' if spec['cls'].endswith('Immutable') else '0', spec['type'],
+                                    _utok(spec['unit']), _vals(spec['values']),
+                                    ' '.join(_hist_tok(o, spec) for o in ops))
+
+
+def hist_exec(heap, o):
+    """One history operation on the real objects: ('ok',) | ('new', k) | ('flag', b); raises what the code raises."""
+    c = heap[o[1]]
+    k = o[0]
+    if k == 'cu':
+        c.convert_to_unit(o[2])
+    elif k == 'ci':
+        c.convert_to_ip()
+    elif k == 'cs':
+        c.convert_to_si()
+    elif k == 'set':
+        c[o[2]] = o[3]
+    elif k == 'vals':
+        c.values = list(o[2])
+    elif k == 'rng':
+        return ('flag', 1 if c.is_in_data_type_range(False) else 0)
+    else:
+        if k == 'tu':
+            new = c.to_unit(o[2])
+        elif k == 'ti':
+            new = c.to_ip()
+        elif k == 'ts':
+            new = c.to_si()
+        elif k == 'dup':
+            new = c.duplicate()
+        elif k == 'imm':
+            new = c.to_immutable()
+        elif k == 'mut':
+            new = c.to_mutable()
+        elif k == 'norm':
+            new = c.normalize_by_area(o[2], o[3])
+        elif k == 'agg':
+            new = c.aggregate_by_area(o[2], o[3])
+        elif k == 'tagg':
+            new = c.to_time_aggregated()
+        elif k == 'trate':
+            new = c.to_time_rate_of_change()
+        else:
+            raise KeyError(k)
+        heap.append(new)
+        return ('new', len(heap) - 1)
+    return ('ok',)
+
+
+def _parse_heap(out):
+    """The heap (shape only) after the last op of a model answer."""
+    if not out.startswith('ok'):
+        return None
+    segs = out.split(' | ')
+    if len(segs) == 1:
+        return []
+    heap = []
+    for st in segs[-1].split(' # ', 1)[1].split(' ; '):
+        t = st.split()
+        heap.append({'imm': t[0] == 'I:1', 'type': t[1][2:], 'unit': _uparse(t[2]), 'n': len(t) - 3})
+    return heap
+
+
+def _pick_weighted(rng, pairs):
+    tot = sum(w for _k, w in pairs)
+    r = rng.uniform(0, tot)
+    for k, w in pairs:
+        r -= w
+        if r <= 0:
+            return k
+    return pairs[-1][0]
+
+
+def _hist_values(rng, n):
+    return [rng.choice([0.0, 1.0, -1.0, 0.5, 20.0, 100.0, -40.0, 1000.0, 1e-6, 1e6, rng.uniform(-100, 100),
+                        float(rng.randrange(-50, 50))]) for _ in range(n)]
+
+
+def _propose(rng, heap, spec, tabs, other_units):
+    n = len(heap)
+    r = rng.random()
+    i = n - 1 if r < 0.4 else 0 if r < 0.65 else rng.randrange(n)
+    ob = heap[i]
+    us = tabs[ob['type']]['units'] if ob['type'] in tabs else ['']
+    w = [('cu', 14), ('ci', 5), ('cs', 5), ('set', 5), ('vals', 4), ('rng', 8)]
+    if n < HIST_MAX_OBJS:
+        w += [('tu', 8), ('ti', 3), ('ts', 3), ('dup', 3), ('imm', 8), ('mut', 5), ('norm', 5), ('agg', 5)]
+        if spec['cls'].startswith('Hourly') or spec['cls'].startswith('Daily'):
+            w += [('tagg', 4), ('trate', 4)]
+    k = _pick_weighted(rng, w)
+    if k in ('cu', 'tu'):
+        r = rng.random()
+        u = rng.choice(us) if r < 0.85 else rng.choice(UNKNOWN_UNITS) if r < 0.93 else rng.choice(other_units)
+        return [k, i, u]
+    if k == 'set':
+        idx = rng.randrange(ob['n']) if (ob['n'] and rng.random() < 0.85) else ob['n'] + rng.randrange(3)
+        return [k, i, idx, _hist_values(rng, 1)[0]]
+    if k == 'vals':
+        r = rng.random()
+        m = ob['n'] if r < 0.75 else ob['n'] + 1 if r < 0.9 else max(ob['n'] - 1, 0)
+        return [k, i, _hist_values(rng, m)]
+    if k in ('norm', 'agg'):
+        u = ob['unit']
+        ipish = ('Btu' in u or 'ft' in u or u in ('cfm', 'gph', 'gpm'))
+        r = rng.random()
+        au = ('ft2' if ipish else 'm2') if r < 0.7 else rng.choice(['m2', 'ft2']) if r < 0.9 else \
+            rng.choice(['mm2', 'ha', '', 'M2', 'sqm'])
+        area = rng.choice([2.0, 0.5, 100.0, rng.uniform(0.1, 1e3), -3.0]) if rng.random() < 0.9 else 0.0
+        return [k, i, area, au]
+    return [k, i]
+
+
+def _hist_specs(ctx, tabs, names, base_names, per_class):
+    rng = ctx.rng
+    special = [n for n in names if tabs[n]['parent'] in (
+        'Energy', 'Power', 'VolumeFlowRate', 'EnergyIntensity', 'EnergyFlux', 'VolumeFlowRateIntensity',
+        'MassFlowRate', 'Speed', 'TemperatureDelta', 'Mass', 'Distance', 'TemperatureTime')]
+    bounded = [n for n in names if tabs[n]['min'] not in ('-inf', 'nan') or tabs[n]['max'] not in ('inf', 'nan')]
+    specs = []
+    for cls in COLL_CLASSES:
+        for _ in range(per_class):
+            r = rng.random()
+            n = rng.choice(special) if r < 0.45 else rng.choice(bounded) if r < 0.65 else \
+                rng.choice(base_names) if r < 0.9 else rng.choice(names)
+            ts = 1
+            if cls.startswith('HourlyContinuous'):
+                nv = 24
+            else:
+                nv = rng.choice([1, 1, 2, 3])
+                if cls.startswith('Hourly'):
+                    ts = rng.choice(ALL_TIMESTEPS)
+            specs.append({'cls': cls, 'type': n, 'unit': rng.choice(tabs[n]['units']),
+                          'values': _hist_values(rng, nv), 'timestep': ts, 'leap': rng.random() < 0.3})
+            ctx.count('hist:cls:' + cls)
+            ctx.count('hist:timestep:%d' % ts)
+            ctx.count('hist:single_value' if nv == 1 else 'hist:several_values')
+            ctx.count('hist:leap' if specs[-1]['leap'] else 'hist:non_leap')
+    return specs
+
+
+def _hist_impl(spec, ops, rng=None):
+    """The history on the real code, in the token shape of the model answer."""
+    try:
+        heap = [make_collection(spec['cls'], spec['type'], spec['unit'], spec['values'], spec['timestep'],
+                                spec['leap'])]
+    except ValueError:
+        return ['err:value']
+    out = ['ok']
+    for o in ops:
+        out.append('|')
+        try:
+            res = hist_exec(heap, o)
+            out += list(res)
+        except Exception as e:
+            out.append('err:' + err_name(e))
+        out.append('#')
+        # read every object (in a random order, twice): reads must not depend on their order or number
+        order = list(range(len(heap)))
+        if rng is not None:
+            rng.shuffle(order)
+        first = {j: state(heap[j]) for j in order}
+        if rng is not None:
+            rng.shuffle(order)
+        second = {j: state(heap[j]) for j in order}
+        for j in range(len(heap)):
+            if j:
+                out.append(';')
+            out += first[j] if first[j] == second[j] else ['unstable-read'] + second[j]
+    return out
+
+
+def _hist_fix(mi, io):
+    """`flag ~` of the model (value within 1e-9 of a limit): the flag is not compared."""
+    if '~' not in mi or len(mi) != len(io):
+        return io
+    return ['~' if m == '~' else x for m, x in zip(mi, io)]
+
+
+def _hist_correspondence(ctx, tabs, names, base_names):
+    rng = ctx.rng
+    drv = ctx.driver()
+    other_units = sorted({u for n in base_names for u in tabs[n]['units']})
+    specs = _hist_specs(ctx, tabs, names, base_names, ctx.n(60, 1000))
+    hs = [{'spec': sp, 'ops': [], 'len': rng.randrange(3, 11)} for sp in specs]
+    heaps = {}
+    for h in hs:
+        heaps[id(h)] = [{'imm': h['spec']['cls'].endswith('Immutable'), 'type': h['spec']['type'],
+                         'unit': h['spec']['unit'], 'n': len(h['spec']['values'])}]
+    for rnd in range(10):
+        active = [h for h in hs if len(h['ops']) < h['len'] and heaps[id(h)]]
+        if not active:
+            break
+        for h in active:
+            o = _propose(rng, heaps[id(h)], h['spec'], tabs, other_units)
+            h['ops'].append(o)
+            ctx.count('hist_op:' + o[0])
+        outs = drv.run([_hist_line(h['spec'], h['ops']) for h in active])
+        for h, o in zip(active, outs):
+            hp = _parse_heap(o)
+            if hp is None:
+                raise core.MachineryError('driver refuses history: %s -> %s' % (_hist_line(h['spec'], h['ops']), o[:200]))
+            heaps[id(h)] = hp
+    for h in hs:
+        ctx.count('hist_objects', len(heaps[id(h)]))
+        ctx.count('hist_with_immutable_twin' if any(x['imm'] for x in heaps[id(h)][1:]) else 'hist_without_twin')
+
+    compare_num(ctx, 'hist', hs, lambda h: _hist_line(h['spec'], h['ops']),
+                lambda h: _hist_impl(h['spec'], h['ops'], rng),
+                lambda h: OFFSET_TYPES_ABS * 10 if _has_offset(tabs, h['spec']['type']) else 0.0,
+                key=lambda h: json.dumps([h['spec']['cls'], h['spec']['type'], h['spec']['unit'], h['ops']]),
+                fix=_hist_fix, inp_fn=lambda h, line: {'spec': h['spec'], 'ops': h['ops'], 'line': line})
+    ctx.c06_hists = hs
+
+
+def _thist_correspondence(ctx, tabs, names, base_names):
+    """Call histories on SHARED data-type instances (one per type for the whole history), siblings of one base type
+    asked the same question one after the other, refused calls before ordinary ones, every question repeated:
+    the model is stateless, so every answer must be the answer of a fresh object."""
+    global _POOL
+    rng = ctx.rng
+    mlims = _model_limits(ctx, tabs, names)
+    fams = {}
+    for n in names:
+        fams.setdefault(tabs[n]['parent'], []).append(n)
+    cases = []
+    for p, sibs in sorted(fams.items()):
+        us = tabs[p]['units']
+        sibs = list(sibs)
+        for u in us[1:] + us[:1] + [None]:
+            rng.shuffle(sibs)
+            for n in sibs:
+                lims = mlims.get((n, u if u is not None else us[0]), [])
+                probes = _limit_probes(lims) + [[1e30], [-1e30], [0.0]]
+                for pr in probes[:ctx.n(4, 9)] if lims else probes[:2]:
+                    cases.append(('in_range', n, u, pr))
+    for n in names:
+        us = tabs[n]['units']
+        k = ctx.n(2, 6) if tabs[n]['parent'] != n else ctx.n(4, 12)
+        for _ in range(k):
+            a, b, c = rng.choice(us), rng.choice(us), rng.choice(us)
+            xs = [rng.choice([0.0, 1.0, -40.0, 100.0, rng.uniform(-1e3, 1e3)]) for _ in range(rng.choice([1, 1, 2]))]
+            bad = rng.choice(UNKNOWN_UNITS)
+            seq = [('to_unit', n, b, a, xs), ('to_unit', n, c, b, xs), ('to_unit', n, b, a, xs),     # other pair, repeat
+                   ('to_unit', n, bad, a, xs), ('to_unit', n, b, a, xs),                         # refused, then again
+                   ('to_unit', n, b, bad, xs), ('to_ip', n, a, xs), ('to_si', n, a, xs), ('to_ip', n, a, xs),
+                   ('raw', n, b, a, [None] + xs), ('to_unit', n, c, a, xs),
+                   ('in_range_raise', n, a, [1e30, -1e30]), ('to_unit', n, a, b, xs)]
+            cases.append(('block', seq))
+    # interleave: blocks stay in order internally, but blocks of different types are merged at random
+    singles = [c for c in cases if c[0] != 'block']
+    blocks = [list(c[1]) for c in cases if c[0] == 'block']
+    rng.shuffle(blocks)
+    seq = []
+    cursor = 0
+    while blocks or cursor < len(singles):
+        if blocks and (cursor >= len(singles) or rng.random() < 0.5):
+            j = rng.randrange(min(len(blocks), 4))
+            seq.append(blocks[j].pop(0))
+            if not blocks[j]:
+                blocks.pop(j)
+        else:
+            seq.append(singles[cursor])
+            cursor += 1
+    for c in seq:
+        ctx.count('thist:' + c[0])
+
+    def line(c):
+        if c[0] == 'to_unit':
+            return 'to_unit %s %s %s %s' % (c[1], _utok(c[2]), _utok(c[3]), _vals(c[4]))
+        if c[0] in ('to_ip', 'to_si'):
+            return '%s %s %s %s' % (c[0], c[1], _utok(c[2]), _vals(c[3]))
+        if c[0] == 'raw':
+            return 'raw %s %s %s %d %s' % (c[1], _utok(c[2]), _utok(c[3]), len(c[4]),
+                                           ' '.join('str' if v is None else _fbits(v) for v in c[4]))
+        return 'in_range %s %s %s' % (c[1], _utok(c[2]), _vals(c[3]))
+
+    def impl(c):
+        t = _inst(c[1])
+        if c[0] == 'to_unit':
+            arg = list(c[4])
+            r = t.to_unit(arg, c[2], c[3])
+            return ['ok'] + list(r) if arg == list(c[4]) else ['argument-changed'] + arg
+        if c[0] in ('to_ip', 'to_si'):
+            arg = list(c[3])
+            vals, u = getattr(t, c[0])(arg, c[2])
+            return ['ok', _utok(u)] + list(vals) if arg == list(c[3]) else ['argument-changed'] + arg
+        if c[0] == 'raw':
+            r = t.to_unit([('abc' if v is None else v) for v in c[4]], c[2], c[3])
+            return ['ok'] + ['str' if isinstance(v, str) else v for v in r]
+        if c[0] == 'in_range_raise':
+            try:
+                t.is_in_range(list(c[3]), c[2], True)
+                return ['ok', 1]
+            except ValueError:
+                return ['ok', 0]
+        return ['ok', 1 if t.is_in_range(list(c[3]), c[2], False) else 0]
+
+    def fix(mi, io):
+        # in_range_raise: the model's err:value (unlisted unit) and `ok 0` are both a ValueError of the code
+        return io
+
+    keep = [c for c in seq if not (c[0].startswith('in_range') and _near_limit((c[1], c[2], c[3]), tabs))]
+    _POOL = {}
+    try:
+        compare_num(ctx, 'thist', keep, line, impl,
+                    lambda c: OFFSET_TYPES_ABS if _has_offset(tabs, c[1]) else 0.0,
+                    key=lambda c: json.dumps(c), fix=fix)
+    finally:
+        _POOL = None
+
+
 def _near_limit(c, tabs):
     """An is_in_range probe within float noise of a converted limit (exact model vs IEEE code)."""
     n, u, p = c
     t = tabs[n]
+    if (u is None or u == t['units'][0]) and p:
+        # first unit: no conversion; only a limit that is not a float (e.g. -273.15) can differ between the exact
+        # model and the code, and only for a probe within rounding of it
+        lims = [Fr(b) for b in (t['min'], t['max']) if b not in ('-inf', 'inf', 'nan')]
+        return any(Fr(x) != l and abs(Fr(x) - l) <= Fr(1, 10 ** 9) * max(1, abs(l)) for x in p for l in lims
+                   if math.isfinite(x))
     if u is None or u not in t['units'] or not p:
         return False
     try:
@@ -650,7 +1088,7 @@ def _near_limit(c, tabs):
         return False
 
 
-def make_collection(cls, tname, unit, values, timestep=1):
+def make_collection(cls, tname, unit, values, timestep=1, leap=False):
     """A small collection of class `cls` with len(values) values (built from plain numbers)."""
     from ladybug import datacollection as dc
     from ladybug import datacollectionimmutable as dci
@@ -662,16 +1100,17 @@ def make_collection(cls, tname, unit, values, timestep=1):
     dt = _inst(tname)
     if cls.startswith('HourlyContinuous'):
         # whole days only (k is a multiple of 24 * timestep)
-        ap = AnalysisPeriod(1, 1, 0, 1, k // (24 * timestep), 23, timestep)
+        ap = AnalysisPeriod(1, 1, 0, 1, k // (24 * timestep), 23, timestep, leap)
         return klass(Header(dt, unit, ap), list(values))
     if cls.startswith('HourlyDiscontinuous'):
-        ap = AnalysisPeriod(timestep=timestep)
-        return klass(Header(dt, unit, ap), list(values), [DateTime(1, 1 + 2 * i, 3) for i in range(k)])
+        ap = AnalysisPeriod(timestep=timestep, is_leap_year=leap)
+        return klass(Header(dt, unit, ap), list(values), [DateTime(1, 1 + 2 * i, 3, 0, leap) for i in range(k)])
+    ap = AnalysisPeriod(is_leap_year=leap)
     if cls.startswith('Daily'):
-        return klass(Header(dt, unit, AnalysisPeriod()), list(values), [1 + 40 * i for i in range(k)])
+        return klass(Header(dt, unit, ap), list(values), [1 + 40 * i for i in range(k)])
     if cls.startswith('MonthlyPerHour'):
-        return klass(Header(dt, unit, AnalysisPeriod()), list(values), [(1 + i, 5) for i in range(k)])
-    return klass(Header(dt, unit, AnalysisPeriod()), list(values), [1 + i for i in range(k)])
+        return klass(Header(dt, unit, ap), list(values), [(1 + i, 5) for i in range(k)])
+    return klass(Header(dt, unit, ap), list(values), [1 + i for i in range(k)])
 
 
 def state(coll):
@@ -801,6 +1240,12 @@ def _as_tuple(x):
 
 
 def check_case(op, inp):
+    if op == 'hist':
+        return _check_hist(inp)
+    if op == 'thist':
+        return _check_thist(inp)
+    if op == 'order':
+        return _check_order(inp)
     tname = inp['type']
     try:
         inst = _inst(tname)
@@ -820,10 +1265,14 @@ def check_case(op, inp):
         u, v, x = inp['from'], inp['to'], float(inp['x'])
         sig = dict(sig, **{'from': u, 'to': v})
         try:
-            y = inst.to_unit([x], v, u)[0]
+            arg = [x, x]
+            y = inst.to_unit(arg, v, u)[0]
             back = inst.to_unit([y], u, v)[0]
         except Exception as e:
             return {'required': 'conversion of listed units succeeds', 'observed': repr(e), 'sig': sig}
+        if arg != [x, x]:
+            return {'required': 'to_unit leaves the list it is given alone', 'observed': arg,
+                    'sig': dict(sig, fact='argument-changed')}
         if u not in SI[root] or v not in SI[root]:
             return {'required': 'SI definition known', 'observed': 'unit without definition', 'sig': sig}
         a, b = _si_conv(root, u, v)
@@ -854,7 +1303,11 @@ def check_case(op, inp):
         xs = [float(x) for x in inp['values']]
         listed = _as_tuple(getattr(inst, which + '_units'))
         f = getattr(inst, 'to_' + which)
-        vals, tgt = f(list(xs), u)
+        arg = list(xs)
+        vals, tgt = f(arg, u)
+        if arg != xs:
+            return {'required': 'to_%s leaves the list it is given alone' % which, 'observed': arg,
+                    'sig': dict(sig, fact='argument-changed')}
         if tgt not in listed:
             return {'required': 'to_%s lands in a unit listed in %s_units %r' % (which, which, listed),
                     'observed': tgt, 'sig': dict(sig, fact='target-not-listed')}
@@ -892,6 +1345,25 @@ def check_case(op, inp):
                 r = Header(inst, bad, AnalysisPeriod()).unit
             elif where == 'in_range':
                 r = inst.is_in_range([1.0], bad, False)
+            elif where == 'in_range_raise':
+                r = inst.is_in_range([1.0], bad, True)
+            elif where == 'acceptable':
+                if inst.is_unit_acceptable(bad, False) is not False:
+                    return {'required': 'is_unit_acceptable(%r, False) is False' % bad, 'observed': True, 'sig': sig}
+                if not all(inst.is_unit_acceptable(u, False) is True and inst.is_unit_acceptable(u) is True
+                           for u in inst.units):
+                    return {'required': 'every listed unit is acceptable', 'observed': False, 'sig': sig}
+                r = inst.is_unit_acceptable(bad)
+            elif where == 'header_dict':
+                from ladybug.header import Header
+                from ladybug.analysisperiod import AnalysisPeriod
+                r = Header.from_dict({'data_type': inst.to_dict(), 'unit': bad,
+                                      'analysis_period': AnalysisPeriod().to_dict()}).unit
+            elif where == 'coll_dict':
+                c0 = make_collection('MonthlyCollection', inp['type'], good, [1.0, 2.0])
+                d = c0.to_dict()
+                d['header']['unit'] = bad
+                r = type(c0).from_dict(d).header.unit
             else:
                 raise KeyError(where)
         except ValueError:
@@ -908,8 +1380,21 @@ def check_case(op, inp):
         a, b = _si_conv(root, inst.units[0], u)
         lims = [None if l in (float('-inf'), float('inf')) else a * Fr(repr(float(l))) + b
                 for l in (inst.min, inst.max)]
+        if u == inst.units[0]:
+            # exactly on a bound (first unit: no conversion involved) is in range, with and without the unit argument
+            for l in (inst.min, inst.max):
+                if l not in (float('-inf'), float('inf')):
+                    for uu in (u, None):
+                        if not inst.is_in_range([l], uu, False):
+                            return {'required': 'the limit %r %s itself is in range (unit argument %r)' % (l, u, uu),
+                                    'observed': False, 'sig': dict(sig, fact='bound-excluded')}
         for k, inside in ((0, 1), (1, -1)):
             if lims[k] is None:
+                # no limit on this side: arbitrarily large values are in range (as long as the other side allows)
+                far = -inside * 1e30
+                if not inst.is_in_range([far], u, False):
+                    return {'required': '%r %s is in range (no %s limit)' % (far, u, 'lower' if k == 0 else 'upper'),
+                            'observed': False, 'sig': dict(sig, fact='unbounded-side')}
                 continue
             step = max(abs(lims[k]), Fr(1)) / 100
             ok_val, bad_val = lims[k] + inside * step, lims[k] - inside * step
@@ -919,6 +1404,14 @@ def check_case(op, inp):
                     return {'required': '%r %s is in range' % (float(ok_val), u), 'observed': False, 'sig': sig}
             if inst.is_in_range([float(bad_val)], u, False):
                 return {'required': '%r %s is out of range' % (float(bad_val), u), 'observed': True, 'sig': sig}
+            try:
+                inst.is_in_range([float(bad_val)], u, True)
+                raised = False
+            except ValueError:
+                raised = True
+            if not raised:
+                return {'required': '%r %s raises ValueError with raise_exception=True' % (float(bad_val), u),
+                        'observed': 'no exception', 'sig': dict(sig, fact='no-raise')}
         return None
     if op == 'norm_agg':
         return _check_norm_agg(inst, root, inp, sig)
@@ -1096,6 +1589,372 @@ def _check_coll(inst, root, inp, sig):
     return None
 
 
+# ---------------------------------------------------------------------------------------------
+# ROUND 3 -- history oracle: the statement of C06 after EVERY step of a history on a heap of collections,
+# against the SI table above (independent of the Lean model).  What the user has established is tracked as
+# physical meaning: `M[k]` = the SI quantities object k stands for.  In-place conversions and copies keep the
+# meaning, `coll[k] = x` / `coll.values = xs` establish a new one (x is in the unit the collection then has),
+# a REFUSED operation and an operation on ANOTHER object leave every observable exactly as it was.
+
+UNNORMALIZED = {'EnergyIntensity': 'Energy', 'EnergyFlux': 'Power', 'VolumeFlowRateIntensity': 'VolumeFlowRate'}
+UNAGGREGATED = {'EnergyIntensity': 'EnergyFlux', 'Energy': 'Power', 'Mass': 'MassFlowRate', 'Distance': 'Speed',
+                'TemperatureTime': 'TemperatureDelta'}
+
+
+def _mutable_name(cls):
+    return cls[:-len('Immutable')] if cls.endswith('Immutable') else cls
+
+
+def _snap(c):
+    return (type(c).__name__, type(c.header.data_type).__name__, c.header.unit, tuple(c.values))
+
+
+def _read_paths(c, rng_pick):
+    """Every public read path of values / unit / data type gives the same answer."""
+    vals = tuple(c.values)
+    unit = c.header.unit
+    tname = type(c.header.data_type).__name__
+    paths = [('iter', lambda: tuple(iter(c)) == vals),
+             ('getitem', lambda: tuple(c[j] for j in range(len(c))) == vals),
+             ('len', lambda: len(c) == len(vals)),
+             ('to_dict.values', lambda: tuple(c.to_dict()['values']) == vals),
+             ('to_dict.unit', lambda: c.to_dict()['header']['unit'] == unit),
+             ('header.to_dict.unit', lambda: c.header.to_dict()['unit'] == unit),
+             ('header.to_tuple', lambda: c.header.to_tuple()[1] == unit and c.header.to_tuple()[0] is c.header.data_type),
+             ('header.iter', lambda: list(c.header)[1] == unit),
+             ('header.to_dict.type', lambda: c.header.to_dict()['data_type']['data_type'] == tname),
+             ('csv', lambda: c.header.to_csv_strings()[1] == unit),
+             ('bounds', lambda: c.bounds == (min(vals), max(vals)) and c.min == min(vals) and c.max == max(vals)),
+             ('total', lambda: abs(c.total - sum(vals)) <= 1e-9 * (sum(abs(v) for v in vals) + 1e-300) and
+              abs(c.average - sum(vals) / len(vals)) <= 1e-9 * (sum(abs(v) for v in vals) + 1e-300)),
+             ('values_again', lambda: tuple(c.values) == vals and c.header.unit == unit)]
+    for k in rng_pick:
+        name, f = paths[k % len(paths)]
+        try:
+            ok = f()
+        except Exception as e:
+            return '%s raises %r' % (name, e)
+        if not ok:
+            return '%s differs from values %r / unit %r / type %s' % (name, vals, unit, tname)
+    return None
+
+
+def _check_hist(inp):
+    import random
+    cls, tname = inp['cls'], inp['type']
+    ts, leap = int(inp.get('timestep', 1)), bool(inp.get('leap', False))
+    xs = [float(x) for x in inp['values']]
+    inst0 = _inst(tname)
+    root0 = _root(inst0)
+    sig0 = {'type': root0, 'cls': cls, 'history': True}
+    pick = random.Random(len(inp['ops']) * 7919 + len(xs))
+    try:
+        heap = [make_collection(cls, tname, inp['unit'], xs, ts, leap)]
+    except Exception as e:
+        return {'required': 'collection can be built', 'observed': repr(e), 'sig': dict(sig0, fact='build')}
+    seconds = Fr(3600, ts) if cls.startswith('Hourly') else Fr(86400)
+    executed = []
+
+    def meaning(root, unit, values):
+        a, b = _ab(SI[root][unit])
+        return [a * Fr(v) + b for v in values]
+
+    def offs(root):
+        return Fr(OFFSET_TYPES_ABS * 10) if root == 'Temperature' else Fr(0)
+
+    def close(root, unit, want, got, tol):
+        _a, b = _ab(SI[root][unit])
+        return len(want) == len(got) and all(abs(g - w) <= tol * (abs(w) + abs(b)) + offs(root) for w, g in zip(want, got))
+
+    info = [{'root': root0, 'M': meaning(root0, inp['unit'], xs)}]
+
+    def fail(fact, required, observed, o):
+        return {'required': required, 'observed': '%s; after ops %s' % (observed, json.dumps(executed)),
+                'sig': dict(sig0, fact=fact, step=o[0])}
+
+    for o in inp['ops']:
+        k = o[0]
+        i = int(o[1]) % len(heap)
+        c = heap[i]
+        if k in ('tagg', 'trate') and not hasattr(c, 'to_time_aggregated'):
+            continue
+        dt = c.header.data_type
+        units = list(dt.units)
+        args = list(o[2:])
+        if k in ('cu', 'tu') and not isinstance(args[0], str):
+            args[0] = units[int(float(args[0]) * len(units)) % len(units)]
+        if k == 'set':
+            args[0] = int(args[0]) % (len(c.values) + 2)
+        before = [_snap(x) for x in heap]
+        ro = [k, i] + args
+        executed.append(ro)
+        try:
+            res = hist_exec(heap, ro)
+            err = None
+        except Exception as e:
+            res, err = None, e
+        after = [_snap(x) for x in heap]
+        root = info[i]['root']
+        # -- no other object is touched, ever
+        for j, (b, a) in enumerate(zip(before, after)):
+            if j != i and a != b:
+                return fail('other-object-changed', 'object %d is untouched by %s on object %d: %r' % (j, k, i, b), repr(a), o)
+        if err is not None:
+            # -- a refused operation leaves every observable as it was
+            if after[i] != before[i] or len(after) != len(before):
+                return fail('changed-on-refusal', 'refused %s (%r) leaves the object as it was: %r' % (k, err, before[i]),
+                            repr(after[i]), o)
+            immut = before[i][0].endswith('Immutable')
+            legit = True
+            if k in ('cu', 'tu'):
+                legit = args[0] not in units or (k == 'cu' and immut)
+            elif k in ('ci', 'cs'):
+                legit = immut
+            elif k in ('ti', 'ts', 'dup', 'imm', 'mut', 'rng'):
+                legit = False
+            elif k == 'set':
+                legit = immut or args[0] >= len(before[i][3])
+            elif k == 'vals':
+                legit = immut or len(args[0]) != len(before[i][3])
+            elif k == 'norm':
+                nr = NORMALIZED.get(root)
+                lab = '%s-%s' % (before[i][2], args[1]) if '/' in before[i][2] else '%s/%s' % (before[i][2], args[1])
+                legit = not (nr and args[0] != 0 and lab in SI[nr])
+            elif k == 'agg':
+                ur = UNNORMALIZED.get(root)
+                u = before[i][2]
+                stripped = u[:-len(args[1]) - 1] if (args[1] and (u.endswith('/' + args[1]) or u.endswith('-' + args[1]))) else None
+                legit = not (ur and stripped in SI[ur])
+            elif k == 'tagg':
+                legit = root not in AGGREGATED
+            elif k == 'trate':
+                legit = root not in UNAGGREGATED
+            if not legit:
+                return fail('refuses', '%s %r succeeds on %s [%s]' % (k, args, before[i][1], before[i][2]), repr(err), o)
+            if k in ('cu', 'tu') and args[0] not in units and not isinstance(err, (ValueError, AttributeError)):
+                return fail('rejection-class', 'ValueError for the unlisted unit %r' % (args[0],), repr(err), o)
+        else:
+            if k in ('cu', 'tu') and args[0] not in units:
+                return fail('accepts-unlisted', 'unit %r is rejected by %s' % (args[0], before[i][1]), 'accepted', o)
+            if k in ('cu', 'ci', 'cs', 'set', 'vals') and before[i][0].endswith('Immutable'):
+                return fail('immutable-changed', '%s on an immutable collection is refused' % k, 'accepted', o)
+            if k in ('cu', 'ci', 'cs'):
+                cl, tn, lab, vals = after[i]
+                if (cl, tn) != before[i][:2] or lab not in SI[root] or len(vals) != len(before[i][3]):
+                    return fail('in-place-type', 'class, data type kept, unit listed', repr(after[i]), o)
+                want_lab = [args[0]] if k == 'cu' else _as_tuple(dt.ip_units if k == 'ci' else dt.si_units)
+                if lab not in want_lab:
+                    return fail('label', 'unit label in %r after %s' % (want_lab, k), lab, o)
+                if not close(root, lab, info[i]['M'], meaning(root, lab, vals), SI_TOL):
+                    return fail('meaning', 'values, unit and type move together: SI meaning %r kept (0.2 %%)'
+                                % ([float(m) for m in info[i]['M']],),
+                                '%r %s = SI %r' % (vals, lab, [float(m) for m in meaning(root, lab, vals)]), o)
+                if len(after) != len(before):
+                    return fail('heap', 'no object is made', len(after), o)
+            elif k in ('set', 'vals'):
+                want = list(before[i][3])
+                if k == 'set':
+                    want[args[0]] = args[1]
+                else:
+                    want = list(args[0])
+                if after[i] != before[i][:3] + (tuple(want),):
+                    return fail('write', 'values %r under the same unit and type' % (want,), repr(after[i]), o)
+                info[i]['M'] = meaning(root, after[i][2], want)
+            elif k == 'rng':
+                lo, hi = dt.min, dt.max
+                m0 = meaning(root, dt.units[0], [l for l in (lo, hi) if l not in (float('-inf'), float('inf'))])
+                lims = iter(m0)
+                lo_si = None if lo == float('-inf') else next(lims)
+                hi_si = None if hi == float('inf') else next(lims)
+                a_u = _ab(SI[root][before[i][2]])[0]
+                vs = meaning(root, before[i][2], before[i][3])
+                margin = [max(abs(l), a_u) / 100 for l in (lo_si if lo_si is not None else Fr(0),
+                                                           hi_si if hi_si is not None else Fr(0))]
+                clear_in = all((lo_si is None or v >= lo_si + margin[0]) and (hi_si is None or v <= hi_si - margin[1])
+                               for v in vs)
+                clear_out = any((lo_si is not None and v < lo_si - margin[0]) or (hi_si is not None and v > hi_si + margin[1])
+                                for v in vs)
+                if (clear_in and res[1] != 1) or (clear_out and res[1] != 0):
+                    return fail('range', 'is_in_data_type_range %s for %r %s (limits %r..%r %s)'
+                                % (bool(clear_in), before[i][3], before[i][2], lo, hi, dt.units[0]), bool(res[1]), o)
+                if after != before:
+                    return fail('read-changes', 'a read changes nothing', repr(after[i]), o)
+            else:
+                if len(after) != len(before) + 1 or after[i] != before[i]:
+                    return fail('source-changed', '%s leaves its source alone and returns a collection' % k, repr(after[i]), o)
+                cl, tn, lab, vals = after[-1]
+                src = before[i]
+                want_cl = {'imm': _mutable_name(src[0]) + 'Immutable', 'mut': _mutable_name(src[0])}.get(k, src[0])
+                if cl != want_cl:
+                    return fail('class', '%s returns a %s' % (k, want_cl), cl, o)
+                nroot = _root(heap[-1].header.data_type)
+                if k in ('dup', 'imm', 'mut'):
+                    if (tn, lab, vals) != src[1:]:
+                        return fail('twin', 'the same data type, unit and values %r' % (src[1:],), repr(after[-1]), o)
+                    info.append({'root': root, 'M': list(info[i]['M'])})
+                elif k in ('tu', 'ti', 'ts'):
+                    want_lab = [args[0]] if k == 'tu' else _as_tuple(dt.ip_units if k == 'ti' else dt.si_units)
+                    if tn != src[1] or lab not in want_lab or lab not in SI[root]:
+                        return fail('label', 'type %s, unit in %r' % (src[1], want_lab), '%s [%s]' % (tn, lab), o)
+                    if not close(root, lab, info[i]['M'], meaning(root, lab, vals), SI_TOL):
+                        return fail('meaning', 'the copy has the SI meaning %r (0.2 %%)' % ([float(m) for m in info[i]['M']],),
+                                    '%r %s' % (vals, lab), o)
+                    info.append({'root': root, 'M': list(info[i]['M'])})
+                else:
+                    if k == 'norm':
+                        wroot, f = NORMALIZED.get(root), None
+                        if args[1] in SI['Area']:
+                            f = 1 / (Fr(args[0]) * _ab(SI['Area'][args[1]])[0]) if args[0] else None
+                    elif k == 'agg':
+                        wroot, f = UNNORMALIZED.get(root), None
+                        if args[1] in SI['Area']:
+                            f = Fr(args[0]) * _ab(SI['Area'][args[1]])[0]
+                    elif k == 'tagg':
+                        wroot, f = AGGREGATED.get(root), seconds
+                    else:
+                        wroot, f = UNAGGREGATED.get(root), 1 / seconds
+                    if nroot != wroot or wroot is None or lab not in SI[wroot] or f is None:
+                        return fail('derived-type', '%s of %s [%s] gives a %s in a unit it lists' % (k, src[1], src[2], wroot),
+                                    '%s [%s]' % (tn, lab), o)
+                    want = [m * f for m in info[i]['M']]
+                    got = meaning(wroot, lab, vals)
+                    if not (len(want) == len(got) and all(abs(g - w) <= SI_TOL * abs(w) for w, g in zip(want, got))):
+                        return fail('derived-meaning', '%s: SI quantities %r (0.2 %%)' % (k, [float(w) for w in want]),
+                                    '%r %s = SI %r' % (vals, lab, [float(g) for g in got]), o)
+                    info.append({'root': wroot, 'M': want})
+        # -- every read path agrees, on a randomly picked object, reads repeated
+        j = pick.randrange(len(heap))
+        msg = _read_paths(heap[j], [pick.randrange(64) for _ in range(4)])
+        if msg:
+            return fail('read-path', 'every public read path of object %d agrees' % j, msg, o)
+        if [_snap(x) for x in heap] != after:
+            return fail('read-changes', 'reading changes nothing', repr([_snap(x) for x in heap]), o)
+    return None
+
+
+def _shrink_hist(inp, sig, budget=80):
+    """A shorter history with the same kind of failure (prefix up to the failing step, then single ops removed)."""
+    fact = (sig or {}).get('fact')
+
+    def fails(cand):
+        try:
+            r = _check_hist(cand)
+        except Exception:
+            return False
+        return bool(r) and (r.get('sig') or {}).get('fact') == fact
+
+    ops = list(inp['ops'])
+    for n in range(1, len(ops) + 1):
+        budget -= 1
+        if fails(dict(inp, ops=ops[:n])):
+            ops = ops[:n]
+            break
+    changed = True
+    while changed and budget > 0:
+        changed = False
+        for k in range(len(ops) - 1):
+            budget -= 1
+            if fails(dict(inp, ops=ops[:k] + ops[k + 1:])):
+                ops = ops[:k] + ops[k + 1:]
+                changed = True
+                break
+            if budget <= 0:
+                break
+    return dict(inp, ops=ops)
+
+
+def _check_thist(inp):
+    """A history of data-type calls on SHARED instances (one per type): every step must satisfy the statement."""
+    global _POOL
+    old = _POOL
+    _POOL = {}
+    try:
+        for k, (op, sub) in enumerate(inp['steps']):
+            if op in ('thist', 'order'):
+                continue
+            res = check_case(op, sub)
+            if res:
+                return {'required': '[step %d of a history on shared data-type objects: %s %s] %s'
+                        % (k, op, json.dumps(sub, sort_keys=True), res.get('required')),
+                        'observed': res.get('observed'), 'sig': dict(res.get('sig') or {}, history=True, step=op)}
+    finally:
+        _POOL = old
+    return None
+
+
+# -- process-order independence: a slice of the stream evaluated in a FRESH Python process, in a given order
+
+
+def _worker_main():
+    data = json.loads(sys.stdin.read())
+    fails = []
+    for k, (op, sub) in enumerate(data['order']):
+        try:
+            res = None if op == 'order' else check_case(op, sub)
+        except Exception as e:
+            res = {'required': 'oracle evaluates', 'observed': 'exception %s: %s' % (type(e).__name__, e),
+                   'sig': {'exception': type(e).__name__}}
+        if res:
+            fails.append([k, {'required': str(res.get('required')), 'observed': str(res.get('observed')),
+                              'sig': res.get('sig')}])
+            if len(fails) >= data.get('cap', 20):
+                break
+    sys.stdout.write('\n@@C06@@' + json.dumps(fails, default=str) + '\n')
+
+
+def _subprocess_eval(order, cap=20, timeout=600):
+    env = dict(os.environ)
+    env['LADYBUG_REPO'] = core.REPO
+    code = ('import sys; sys.path.insert(0, %r); from harness import core; sys.path.insert(0, core.REPO); '
+            'from harness.props import c06; c06._worker_main()' % core.ROOT)
+    p = subprocess.run([sys.executable, '-c', code], input=json.dumps({'order': order, 'cap': cap}),
+                       capture_output=True, text=True, timeout=timeout, env=env, cwd=core.ROOT)
+    for ln in reversed(p.stdout.splitlines()):
+        if ln.startswith('@@C06@@'):
+            return json.loads(ln[7:])
+    raise core.MachineryError('C06 order worker failed: rc=%s %s' % (p.returncode, p.stderr[-800:]))
+
+
+def _check_order(inp):
+    fails = _subprocess_eval(inp['order'], cap=1)
+    if not fails:
+        return None
+    k, res = fails[0]
+    op, sub = inp['order'][k]
+    return {'required': '[fresh process, call %d of %d: %s %s] %s' % (k + 1, len(inp['order']), op,
+                                                                    json.dumps(sub, sort_keys=True)[:300], res['required']),
+            'observed': res['observed'], 'sig': dict(res.get('sig') or {}, order=True, step=op)}
+
+
+def _shrink_order(prefix, last, budget=24):
+    """Smallest found sub-sequence of `prefix` after which `last` still fails in a fresh process."""
+    runs = [0]
+
+    def fails(sub):
+        runs[0] += 1
+        return any(f[0] == len(sub) for f in _subprocess_eval(list(sub) + [last], cap=len(sub) + 1))
+
+    if fails([]):
+        return []
+    cur, n = list(prefix), 2
+    while len(cur) >= 2 and runs[0] < budget:
+        chunk = -(-len(cur) // n)
+        reduced = False
+        for s0 in range(0, len(cur), chunk):
+            sub, comp = cur[s0:s0 + chunk], cur[:s0] + cur[s0 + chunk:]
+            if fails(sub):
+                cur, n, reduced = sub, 2, True
+                break
+            if n > 2 and fails(comp):
+                cur, n, reduced = comp, max(n - 1, 2), True
+                break
+        if not reduced:
+            if n >= len(cur):
+                break
+            n = min(len(cur), n * 2)
+    return cur
+
+
 replay = check_case
 
 ORACLE_X = [1.0, 1000.0, -40.0, 0.0, 1e-6, 1e9, 37.5, -273.15, 0.001]
@@ -1156,6 +2015,9 @@ def _oracle_cases(ctx):
         for bad in UNKNOWN_UNITS + rng.sample(others, 4 if not big else 20):
             for where in ('from', 'to', 'header', 'in_range'):
                 yield 'reject', {'type': n, 'unit': bad, 'where': where, 'other': rng.choice(us)}
+        for where in ('in_range_raise', 'acceptable', 'header_dict', 'coll_dict'):
+            yield 'reject', {'type': n, 'unit': rng.choice(UNKNOWN_UNITS + others[:3]), 'where': where,
+                             'other': rng.choice(us)}
     for cls in COLL_CLASSES:
         for _ in range(120 if not big else 1500):
             n = rng.choice(base_types) if rng.random() < 0.7 else rng.choice(all_types)
@@ -1219,6 +2081,208 @@ def _oracle_area_time_cases(ctx):
                                                   for _ in range(nv(cls, ts))]}
 
 
+def _blind_hist_cases(ctx, count):
+    """History inputs for the oracle, generated without the model: targets are resolved modulo the heap size, unit
+    arguments are either explicit strings or a fraction picking one of the units the target's type lists."""
+    rng = ctx.rng
+    try:
+        import ladybug.datatype as dtm
+        all_types = sorted(dtm.TYPES)
+    except Exception:
+        all_types = sorted(SI)
+    special = [n for n in all_types if n in SI and (n in NORMALIZED or n in UNNORMALIZED or n in AGGREGATED or
+                                                   n in UNAGGREGATED)] + ['ActivityLevel', 'Irradiance', 'Radiation']
+    special = [n for n in special if n in all_types]
+    for q in range(count):
+        cls = COLL_CLASSES[q % len(COLL_CLASSES)]
+        r = rng.random()
+        n = rng.choice(special) if r < 0.45 else rng.choice(all_types)
+        try:
+            us = list(_inst(n).units)
+        except Exception:
+            continue
+        ts = 1
+        if cls.startswith('HourlyContinuous'):
+            nv = 24
+        else:
+            nv = rng.choice([1, 1, 2, 3])
+            if cls.startswith('Hourly'):
+                ts = rng.choice(ALL_TIMESTEPS)
+        ops = []
+        for _k in range(rng.randrange(3, 11)):
+            tgt = rng.choice([0, 0, 1, 2, 3, 5, 7])
+            k = _pick_weighted(rng, [('cu', 14), ('ci', 5), ('cs', 5), ('set', 5), ('vals', 4), ('rng', 8), ('tu', 8),
+                                     ('ti', 3), ('ts', 3), ('dup', 3), ('imm', 9), ('mut', 5), ('norm', 5), ('agg', 5),
+                                     ('tagg', 4), ('trate', 4)])
+            if k in ('cu', 'tu'):
+                r = rng.random()
+                ops.append([k, tgt, round(rng.random(), 3) if r < 0.85 else rng.choice(UNKNOWN_UNITS + us)])
+            elif k == 'set':
+                ops.append([k, tgt, rng.randrange(0, 40), _hist_values(rng, 1)[0]])
+            elif k == 'vals':
+                ops.append([k, tgt, _hist_values(rng, nv if rng.random() < 0.8 else nv + rng.choice([-1, 1]))])
+            elif k in ('norm', 'agg'):
+                ops.append([k, tgt, rng.choice([2.0, 0.5, 37.5, rng.uniform(0.1, 1e3), 0.0]),
+                            rng.choice(['m2', 'm2', 'ft2', 'ft2', 'mm2', ''])])
+            else:
+                ops.append([k, tgt])
+            ctx.count('oracle_hist_op:' + k)
+        ctx.count('oracle_hist:timestep:%d' % ts)
+        yield 'hist', {'cls': cls, 'type': n, 'unit': rng.choice(us), 'values': _hist_values(rng, nv),
+                       'timestep': ts, 'leap': rng.random() < 0.3, 'ops': ops}
+
+
+def _thist_cases(ctx, count):
+    """Histories of data-type calls on shared instances: sibling types asked the same range question one after the
+    other (bounded before unbounded and the reverse), the same object asked for several unit pairs and asked twice,
+    refused calls first."""
+    rng = ctx.rng
+    try:
+        import ladybug.datatype as dtm
+        all_types = sorted(dtm.TYPES)
+    except Exception:
+        return
+    fams = {}
+    for n in all_types:
+        try:
+            fams.setdefault(_root(_inst(n)), []).append(n)
+        except Exception:
+            pass
+    fam_keys = sorted(k for k in fams if k)
+    for q in range(count):
+        root = fam_keys[q % len(fam_keys)] if q < len(fam_keys) else rng.choice(fam_keys)
+        sibs = list(fams[root])
+        rng.shuffle(sibs)
+        us = list(SI[root])
+        steps = []
+        for u in rng.sample(us, min(len(us), 3)):
+            if rng.random() < 0.5:
+                steps.append(['reject', {'type': sibs[0], 'unit': rng.choice(UNKNOWN_UNITS), 'where': rng.choice(
+                    ['from', 'to', 'in_range', 'header']), 'other': u}])
+            for n in sibs[:6]:
+                steps.append(['range', {'type': n, 'unit': u}])
+            n = rng.choice(sibs)
+            v, w = rng.choice(us), rng.choice(us)
+            x = rng.choice(ORACLE_X)
+            steps += [['si_pair', {'type': n, 'from': u, 'to': v, 'x': x}],
+                      ['si_pair', {'type': n, 'from': w, 'to': u, 'x': x}],
+                      ['si_pair', {'type': n, 'from': u, 'to': v, 'x': x}],
+                      ['sys', {'type': n, 'from': u, 'which': rng.choice(['ip', 'si']), 'values': [x, 1.0]}],
+                      ['roundtrip', {'type': n, 'from': v, 'to': u, 'x': x}]]
+        ctx.count('oracle_thist_steps', len(steps))
+        yield 'thist', {'steps': steps}
+
+
+def _rarity(case):
+    """Smaller = rarer class of the quantifier (used to put rare cases first / last in a fresh process)."""
+    op, inp = case
+    if op == 'reject':
+        return 0
+    if op == 'range':
+        return 1
+    if op == 'time_agg':
+        return 1 if (inp['cls'].startswith('Daily') or inp.get('timestep', 1) != 1) else 4
+    if op in ('hist', 'thist'):
+        return 2
+    if op == 'norm_agg':
+        return 2 if inp['area_unit'] == 'ft2' else 4
+    if op == 'coll':
+        return 2 if any(len(o) > 1 and o[1] in UNKNOWN_UNITS for o in inp['ops']) else 4
+    if op == 'sys':
+        return 3
+    return 5
+
+
+def _order_slices(ctx, pool):
+    """2-4 orders of one slice of the oracle stream, each evaluated in a fresh Python process."""
+    rng = ctx.rng
+    big = ctx.searching or not ctx.quick
+    by_op = {}
+    for c in pool:
+        by_op.setdefault(c[0], []).append(c)
+    quota = {'range': 10 ** 6, 'reject': 120, 'sys': 300, 'si_pair': 300, 'roundtrip': 100, 'identity': 60,
+             'time_agg': 120, 'norm_agg': 60, 'coll': 80, 'hist': 80, 'thist': 40, 'units_known': 0}
+    sl = []
+    for op, cs in sorted(by_op.items()):
+        k = quota.get(op, 50) * (3 if big else 1)
+        sl += cs if len(cs) <= k else rng.sample(cs, k)
+    rng.shuffle(sl)
+    rare_first = sorted(sl, key=_rarity)
+    # within the range cases of the rare-first order: subtypes with limits before the types without
+    common_first = list(reversed(rare_first))
+    shuffled = list(sl)
+    rng.shuffle(shuffled)
+    orders = [('rare-first', rare_first), ('common-first', common_first), ('shuffled', shuffled)]
+    if big:
+        again = list(sl)
+        rng.shuffle(again)
+        orders.append(('shuffled-2', again))
+    return orders
+
+
+def _run_order_slices(ctx, pool):
+    for tag, order in _order_slices(ctx, pool):
+        ctx.count('order_process:' + tag)
+        ctx.count('order_process_cases', len(order))
+        fails = _subprocess_eval(order, cap=5)
+        for op, inp in order:
+            ctx.count('order:' + op)
+        ctx.case(('order', tag, len(order)))
+        if not fails:
+            continue
+        k, res = fails[0]
+        last = order[k]
+        kept = _shrink_order(order[:k], last, budget=30 if ctx.searching else 16)
+        if not kept:
+            # fails on its own in a fresh process: report the plain case
+            ctx.fail(last[0], last[1], res['required'], res['observed'], res.get('sig'))
+            if ctx.failures and ctx.failures[-1]['input'] is last[1]:
+                ctx.failures[-1]['_fresh'] = True
+        else:
+            inp = {'order': kept + [last]}
+            r2 = _check_order(inp) or {'required': res['required'], 'observed': res['observed'], 'sig': res.get('sig')}
+            ctx.fail('order', inp, r2['required'], r2['observed'], dict(r2.get('sig') or {}, order=True))
+
+
 def oracle(ctx):
-    run_oracle_cases(ctx, _oracle_cases(ctx), check_case)
-    run_oracle_cases(ctx, _oracle_area_time_cases(ctx), check_case)
+    big = ctx.searching or not ctx.quick
+    pool = []
+
+    def keep(gen):
+        for c in gen:
+            pool.append(c)
+            yield c
+
+    run_oracle_cases(ctx, keep(_oracle_cases(ctx)), check_case)
+    run_oracle_cases(ctx, keep(_oracle_area_time_cases(ctx)), check_case)
+    run_oracle_cases(ctx, keep(_blind_hist_cases(ctx, 12000 if big else 900)), check_case)
+    run_oracle_cases(ctx, keep(_thist_cases(ctx, 1000 if big else 90)), check_case)
+    del ctx.failures[150:]      # (the core keeps at most 200) leave room for what the fresh processes find
+    n_in_process = len(ctx.failures)
+    # process-order independence: the same kinds of cases, in fresh processes, in 3-4 different orders
+    _run_order_slices(ctx, pool)
+    # a failure seen only in THIS process (which has a long history behind it) is a usable replay only if it also
+    # fails on its own in a fresh process: put the reproducible ones first
+    if ctx.failures:
+        checked = 0
+        for f in ctx.failures[:n_in_process]:
+            if checked >= 6:
+                break
+            checked += 1
+            try:
+                f['_fresh'] = bool(_subprocess_eval([[f['op'], f['input']]], cap=1))
+            except Exception:
+                f['_fresh'] = False
+        ctx.failures.sort(key=lambda f: 0 if (f.get('_fresh') or f['op'] == 'order') else 1 if '_fresh' not in f else 2)
+        for f in ctx.failures:
+            f.pop('_fresh', None)
+        f = ctx.failures[0]
+        if f['op'] == 'hist':
+            try:
+                small = _shrink_hist(f['input'], f['sig'])
+                if len(small['ops']) < len(f['input']['ops']):
+                    got = _subprocess_eval([['hist', small]], cap=1)
+                    if got:
+                        f['input'], f['required'], f['observed'] = small, got[0][1]['required'], got[0][1]['observed']
+            except Exception:
+                pass
